@@ -144,6 +144,20 @@ def thread_scenarios(tier):
             prep=[sb('outer', [bf('d/a', ch=[bf('d/b')])])],
             threads=[[sb('outer', [bf('d/a', ch=[bf('d/b')])])], [bf('d/b', tag='other function')]]),
     }
+    # the cached record observes the directory that its own nested output (re)creates: while one thread applies
+    # the record (reserving the directory) the other validates it
+    S['T5c_cached_duplicate_subbuild_observing_its_own_new_dir'] = dict(
+        bound=2,
+        prep=[sb('s', [{'o': 'q', 'kind': 'is_dir', 'p': 'd'}, bf('d/a')])],
+        threads=[[sb('s', [{'o': 'q', 'kind': 'is_dir', 'p': 'd'}, bf('d/a')])],
+                 [sb('s', [{'o': 'q', 'kind': 'is_dir', 'p': 'd'}, bf('d/a')])]])
+    # the losing duplicate has reserved the directory but is not yet rejected when the winner fails and a query follows
+    S['T13_query_after_failed_winner_while_loser_in_flight'] = dict(
+        bound=2,
+        threads=[[bf('d/a', 'ra'), {'o': 'q', 'kind': 'is_dir', 'p': 'd'}], [bf('d/a')]])
+    # the path was a directory in the previous build: both calls make room for the file
+    S['T14_duplicate_file_where_a_directory_was'] = dict(
+        prep=[bf('d/a/x')], threads=[[bf('d/a')], [bf('d/a')]])
     # both threads validate the same cached build_file record (which has recorded queries and a nested record)
     S['T5b_cached_duplicate_build_file_with_children'] = dict(
         t0=[['w', 'i', 'A']], prep=[bf('d/a', ch=[{'o': 'q', 'kind': 'read', 'p': 'i'}, bf('d/b')])],
@@ -216,6 +230,14 @@ def acceptable(o, seqs):
     if len(inv) != len(set(inv)):
         return False
     seq = [json.loads(k) for k in seqs]
+    # a call that succeeded returns what it returns in some sequential execution (a function that ran
+    # saw a state no sequential order shows it otherwise); callers of a reuse-implied rejection made
+    # inside a subbuild ('par') are exempt, their value reports the rejection
+    for k, r in first.get('ops', {}).items():
+        if r[0] == 'ok' and '"par"' not in json.dumps(r) and not k.startswith('after.'):
+            if not any(s_['first']['ops'].get(k) == r for s_ in seq):
+                if not any(op.get('par') for t in o.get('_threads', []) for op in t):
+                    return False
     # a rejected call has no effect: the tree may lack what the rejected call would have built, but
     # everything present must occur in a sequential tree and every output a successful call reports
     # must be there; no empty directory may be left behind
@@ -311,7 +333,7 @@ def thread_work(ctx, task):
             line_execs += 1 if line else 0
             js = json.dumps(o, sort_keys=True)
             outcomes.add(js)
-            if js not in seqs and not acceptable(o, seqs):
+            if js not in seqs and not acceptable(dict(o, _threads=sc['threads']), seqs):
                 fail = o['first'].get('failure')
                 clause = 'dup.deadlock' if fail and fail.startswith('Deadlock') else (
                     'dup.harness' if fail else 'dup.not_linearizable')
